@@ -838,7 +838,7 @@ impl BitVectorMut {
     /// ```
     #[must_use]
     pub fn with_capacity(n_bits: usize) -> Self {
-        let capacity = (n_bits + 63) / 64;
+        let capacity = n_bits.div_ceil(64);
         Self {
             data: Vec::with_capacity(capacity),
             ..Self::default()
@@ -970,7 +970,7 @@ impl BitVectorMut {
     #[inline]
     pub fn extend_with_zeros(&mut self, n: usize) {
         self.n_bits += n;
-        let new_size = (self.n_bits + 511) / 512;
+        let new_size = self.n_bits.div_ceil(512);
         self.data.resize_with(new_size, Default::default);
     }
 
